@@ -10,7 +10,7 @@ from __future__ import annotations
 import itertools
 
 from rt import gen, hooks
-from rt.jp_oracle import check_query_case
+from rt.jp_oracle import check_query_case, equivalent_envs
 from rt.jsonval import NOTHING, canon
 from rt.render import Renderer
 
@@ -219,7 +219,12 @@ def run(spec, ctx):
                 if text in seen:
                     continue
                 seen.add(text)
-                check_query_case(ctx, ast, doc, text, "random", nontrivial=nontrivial, model=model, sample_p=0.001)
+                if r.random() < 0.3:
+                    name, env = r.choice(equivalent_envs())
+                    ctx.cell("configurations", name)
+                    check_query_case(ctx, ast, doc, text, "random:" + name, nontrivial=nontrivial, model=model, sample_p=0.001, env=env)
+                else:
+                    check_query_case(ctx, ast, doc, text, "random", nontrivial=nontrivial, model=model, sample_p=0.001)
             if i % 3 == 0:
                 # one compiled object over several documents: `$` must denote each call's own argument
                 import jsonpath
